@@ -373,6 +373,22 @@ def commitTx {Q : Type} (ops : QueueOps Q) (e : Env) (s : St Q) (it : Item) (t :
     witnessIncluded := s.witnessIncluded || (reserve != 0),
     sel := s.sel ++ [it.idx], fees := s.fees ++ [it.fee], sigs := s.sigs ++ [cost] }
 
+/-- The checks of one iteration once the weight reservation `reserve`, the prospective block weight
+`bpw` and the sigop cost `cost` of the popped transaction are known. -/
+def selectCore {Q : Type} (ops : QueueOps Q) (e : Env) (s : St Q) (it : Item) (t : Tx)
+    (reserve bpw cost : Nat) : St Q :=
+  if bpw < s.blockWeight || bpw ≥ e.maxWeight then s
+  else if s.sigCost + cost > MAX_BLOCK_SIGOPS_COST then s
+  else if s.byFee && it.feePerKB < e.minFreeFee && bpw ≥ e.minWeight then s
+  else
+    let switch := !s.byFee && (bpw ≥ e.prioSize || it.prio ≤ MIN_HIGH_PRIORITY_BITS)
+    let s1 : St Q := if switch then switchSt ops s else s
+    if switch && (bpw > e.prioSize || it.prio < MIN_HIGH_PRIORITY_BITS) then
+      { s1 with queue := ops.push true s1.queue it }
+    else if !checkInputs s1.view e t then s1
+    else if !t.scriptsOk then s1
+    else commitTx ops e s1 it t bpw cost reserve
+
 /-- One iteration of the selection loop for the popped item `it` (queue already without it). -/
 def selectStep {Q : Type} (ops : QueueOps Q) (e : Env) (pool : List Tx) (s : St Q) (it : Item) : St Q :=
   match pool[it.idx]? with
@@ -382,21 +398,9 @@ def selectStep {Q : Type} (ops : QueueOps Q) (e : Env) (pool : List Tx) (s : St 
     else
       -- weight the witness commitment will add if this is the first witness transaction
       let reserve := if e.segwit && !s.witnessIncluded && t.hasWitness then WITNESS_RESERVE else 0
-      let txWeight := t.weight % U32
-      let bpw := (s.blockWeight + reserve + txWeight) % U32
-      if bpw < s.blockWeight || bpw ≥ e.maxWeight then s
-      else
-        let cost := if allAvail s.view t then t.sigCost else 0
-        if s.sigCost + cost > MAX_BLOCK_SIGOPS_COST then s
-        else if s.byFee && it.feePerKB < e.minFreeFee && bpw ≥ e.minWeight then s
-        else
-          let switch := !s.byFee && (bpw ≥ e.prioSize || it.prio ≤ MIN_HIGH_PRIORITY_BITS)
-          let s1 : St Q := if switch then switchSt ops s else s
-          if switch && (bpw > e.prioSize || it.prio < MIN_HIGH_PRIORITY_BITS) then
-            { s1 with queue := ops.push true s1.queue it }
-          else if !checkInputs s1.view e t then s1
-          else if !t.scriptsOk then s1
-          else commitTx ops e s1 it t bpw cost reserve
+      let bpw := (s.blockWeight + reserve + t.weight % U32) % U32
+      let cost := if allAvail s.view t then t.sigCost else 0
+      selectCore ops e s it t reserve bpw cost
 
 def selectLoop {Q : Type} (ops : QueueOps Q) (e : Env) (pool : List Tx) : Nat → St Q → St Q
   | 0, s => s
